@@ -307,6 +307,13 @@ func runCase(k *kase) string {
 	ex := fixture.Request(px.H(":path", pathOf(k.routes[0]), ":authority", "svc", ":scheme", "http", "x-ip", xip), body, trailers)
 	defer ex.ForgetProv()
 
+	tm := "-" // return value of the asynchronous TerminateStream call of the case, when one is made
+	tb := func(x bool) string {
+		if x {
+			return "1"
+		}
+		return "0"
+	}
 	// phase 1: the worker runs until it finishes, waits for the upstream, or gives up
 	waitSettled(ex)
 	// phase 2: the upstream event, once, if the request is waiting for one
@@ -327,7 +334,8 @@ func runCase(k *kase) string {
 					}
 				}
 				if stale != nil {
-					stale.TerminateSafe(code)
+					r, _ := stale.TerminateSafe(code)
+					tm = tb(r)
 					ex.WaitQuiescentFor(4 * time.Millisecond)
 				} else {
 					k.up = p[1]
@@ -345,12 +353,12 @@ func runCase(k *kase) string {
 				fmt.Sscan(up[5:], &code)
 				rh, rb, rt := px.AnswerOf(0, true, false)
 				a.OnProxyReset(func() { a.RespondInFlight(rh, rb, rt); ex.WaitQuiescentFor(6 * time.Millisecond) })
-				ex.Terminate(code)
+				tm = tb(ex.Terminate(code))
 				a.OnProxyReset(nil)
 			case strings.HasPrefix(up, "term"):
 				var code int
 				fmt.Sscan(up[4:], &code)
-				ex.Terminate(code)
+				tm = tb(ex.Terminate(code))
 			default:
 				var code, d, t int
 				fmt.Sscanf(up, "r%d:%d:%d", &code, &d, &t)
@@ -410,7 +418,7 @@ func runCase(k *kase) string {
 	} else {
 		out = append(out, "done=0")
 	}
-	out = append(out, "own="+own[0]+"/"+own[1]+"/"+own[2])
+	out = append(out, "own="+own[0]+"/"+own[1]+"/"+own[2], "tm="+tm)
 	return strings.Join(out, " ")
 }
 
